@@ -29,6 +29,7 @@ type HammerObs struct {
 }
 
 func runCRLHammer() int {
+	crl.SetVerifWriteHook(func(point, temp, path string) { coarseMtime(point, temp) })
 	dur := 4 * time.Second
 	if *flagTier == "thorough" {
 		dur = 25 * time.Second
